@@ -218,6 +218,11 @@ pub fn generate_crates(dir: &str, thorough: bool, seed: u64, repo: &str) -> std:
             3 => format!("fwd_tt!({}, {})", l.mac, l.spelling),
             4 => format!("{{ static INNER: &'static {} = iref::{}!({}); INNER }}", l.ty, l.mac, l.spelling),
             5 => format!("{{ const fn pick<'a>(x: &'a {}, _y: &'a {}) -> &'a {} {{ x }} pick(iref::{}!({}), iref::{}!({})) }}", l.ty, l.ty, l.ty, l.mac, l.spelling, l.mac, l.spelling),
+            6 => {
+                // a scope in which the usual crate names are shadowed: the expansion must not depend on them
+                writeln!(src, "const V{}: &'static {} = shadow_{}::X; mod shadow_{} {{ mod std {{}} mod core {{}} mod alloc {{}} mod iref {{}} mod iref_core {{}} pub const X: &'static ::iref::{} = ::iref::{}!({}); }}", i, l.ty, i, i, l.ty, l.mac, l.spelling).unwrap();
+                continue;
+            }
             _ => format!("iref::{}!({})", l.mac, l.spelling),
         };
         writeln!(src, "const V{}: &'static {} = {};", i, l.ty, inv).unwrap();
